@@ -416,7 +416,7 @@ def respLoop : Nat → M cfg PUnit
     if (← finished) then return
     if !drain then
       let s ← st
-      if s.flags.keepAlive && s.flags.finished && cfg.kaTimeout then
+      if s.flags.keepAlive && s.flags.finished && cfg.kaTimeout && s.kaTimer != .active then
         let _ ← fire .armKa
     let ready ← flush fuel
     if (← finished) then return
